@@ -149,11 +149,13 @@ def flip_first(k):
     return (k[0].lower() if k[0].isupper() else k[0].upper()) + k[1:]
 
 
-def cli_spellings(rng, u, root, sd, pd, safe=False, mapping=None):
+def cli_spellings(rng, u, root, sd, pd, safe=False, mapping=None, marks=None):
     """(key, by_construction_path) pairs; path None when the property does not fix it.
     safe: only spellings that fs::canonicalize resolves (the file exists): add_results merges them.
-    mapping: a dict that receives --path-mapping entries (key -> u) for mapped spellings of u: the record spells the key
-    exactly, or with the other case of its first letter (both directions: key upper / record lower and the converse)"""
+    mapping: a dict that receives --path-mapping entries for mapped spellings of u: the record spells the key exactly, or with
+    the other case of its first letter (both directions); the VALUE is u, or the build-machine path <prefix>/u (mapped first, then
+    the prefix is removed).  marks: a dict key -> kind of spelling, for the measured distribution"""
+    marks = {} if marks is None else marks
     out = [("./" + u, u), (u.replace("/", "//", 1) if "/" in u else "./" + u, u), (u.replace("/", "/./", 1) if "/" in u else u, u)]
     must = [(u, u)]
     if not safe:
@@ -165,19 +167,28 @@ def cli_spellings(rng, u, root, sd, pd, safe=False, mapping=None):
             # (for a missing file this spelling is C11's known finding unresolved-dotdot-abs)
             out.append((root + "/run/../src/" + u, u))
     if pd and not safe:
+        for k in (pd + "/" + u, pd + "//" + u):
+            marks[k] = "prefix"
         out.append((pd + "/" + u, u))
         out.append((pd + "//" + u, u))
         # '//' and '/./' INSIDE the prefix part: the prefix is removed component-wise, not as text
-        must.append((inside_prefix(rng, pd) + "/" + u, u))
+        k = inside_prefix(rng, pd) + "/" + u
+        marks[k] = "inside-prefix"
+        must.append((k, u))
         if rng.random() < 0.5:
-            out.append((inside_prefix(rng, pd) + rng.choice(["/", "//", "/./"]) + u, u))
+            k = inside_prefix(rng, pd) + rng.choice(["/", "//", "/./"]) + u
+            marks[k] = "inside-prefix"
+            out.append((k, u))
+        if rng.random() < 0.5:
+            must.append((pd + "/" + u, u))
     if mapping is not None and not safe:
         flat = u.replace("/", "_")
         for key in rng.sample(["C:/obj/dist/include/" + flat, "gen/obj/" + flat, "Build/" + flat, "z:/w/" + flat], rng.randrange(1, 3)):
-            mapping[key] = u
+            mapping[key] = (pd + "/" + u) if (pd and rng.random() < 0.6) else u
             rec = rng.choice([flip_first(key), flip_first(key), key])
             if rng.random() < 0.25:
                 rec = rec.replace("/", "\\")                      # the record's backslashes become '/' before the lookup
+            marks[rec] = "mapped"
             must.append((rec, u))
     rng.shuffle(out)
     seen, res = set(), []
@@ -314,8 +325,9 @@ def check_report(chk, replay, rep, recs, intent, flt, dist, akeys):
     for path, (ids, agg) in want.items():
         cov = by_path[path][0]
         got_ids = input_ids(cov)
-        if got_ids != set(ids):
-            chk.violation(dict(replay, path=path, merged_inputs=sorted(got_ids), expected_inputs=sorted(ids),
+        exp_ids = set().union(*[input_ids(recs[i][1]) for i in ids])      # (identical records share one id)
+        if got_ids != exp_ids:
+            chk.violation(dict(replay, path=path, merged_inputs=sorted(got_ids), expected_inputs=sorted(exp_ids),
                                clause="inputs that refer to the same file through different spellings are aggregated into a single record (none dropped: "
                                       "line-less, function-only and branch-only inputs included)"), tag="cli")
             ok = False
@@ -348,10 +360,18 @@ def cli_stream(chk, n):
         os.makedirs(os.path.join(root, "src"), exist_ok=True)
         os.makedirs(os.path.join(root, "run"), exist_ok=True)
         sd = None if (ci == 0 or rng.random() < 0.4) else os.path.join(root, "src")
-        pd = PREFIX if (ci != 0 and rng.random() < 0.5) else None
+        # -p: a build-machine prefix that does not exist here, or one that exists locally (through a symlink, relative to the
+        # working directory, with ./ or ..): it is removed as the literal leading components of the recorded paths either way
+        for dname in ("build/obj", "run/build/obj", "other"):
+            os.makedirs(os.path.join(root, dname), exist_ok=True)
+        os.symlink(os.path.join(root, "build"), os.path.join(root, "lnk"))
+        pd_kind = rng.choice(["absent", "absent", "symlink", "symlink-sub", "relative", "relative-dot", "dotdot"]) if (ci != 0 and rng.random() < 0.55) else None
+        pd = {None: None, "absent": PREFIX, "symlink": root + "/lnk", "symlink-sub": root + "/lnk/obj", "relative": "build/obj",
+              "relative-dot": "./build/obj", "dotdot": root + "/other/../build/obj"}[pd_kind]
         branch = ci != 0 and rng.random() < 0.5
         with_filter = ci != 0 and rng.random() < 0.55
         recs, intent = [], []
+        markd = {}
         mapping = {} if (ci != 0 and rng.random() < 0.45) else None
         if ci == 0:
             fam = [("foo/./bar.c", "foo/bar.c"), ("foo/bar.c", "foo/bar.c"), ("foo//bar.c", "foo/bar.c")]     # the witness of the former finding
@@ -361,7 +381,7 @@ def cli_stream(chk, n):
             present = [u for u in ONDISK if os.path.exists(os.path.join(root, "src", u))]
             pool = present if (safe and present) else UNDER
             for u in rng.sample(pool, min(len(pool), rng.randrange(1, 4))):
-                fam += cli_spellings(rng, u, root, sd, pd, safe and bool(present), mapping)
+                fam += cli_spellings(rng, u, root, sd, pd, safe and bool(present), mapping, markd)
             dist["safe_cases"] += safe and bool(present)
         kinds = []
         for i, (k, p) in enumerate(fam):
@@ -377,6 +397,7 @@ def cli_stream(chk, n):
                     return os.path.realpath(p)
             return k
         akeys = [addkey(k) for k, _ in recs]
+        forced = []
         if with_filter:
             # make sure the status of a file differs from the status of some of its spellings: two inputs that stay distinct map
             # keys until merge_same_paths, one without any executed line, one executed
@@ -387,7 +408,29 @@ def cli_stream(chk, n):
                 recs[a] = (recs[a][0], {"lines": [[2, 0], [1000 + a, 0]], "funcs": [fnid(a, False)], "branches": []})
                 recs[b] = (recs[b][0], {"lines": [[2, 4], [1000 + b, 1]], "funcs": [fnid(b, True)], "branches": []})
                 kinds[a] = kinds[b] = "lines"
+                forced = [a, b]
                 dist["filter_cases_with_mixed_status_spellings"] += 1
+        marks = [markd.get(k) for k, _ in recs]
+        if ci != 0 and rng.random() < 0.8:
+            # the very same record under 2-3 spellings of one file that stay distinct map keys until merge_same_paths: the aggregate
+            # of k equal records has k times the counts (inputs are then identified by their multiplicity, not by an id of their own)
+            used = set(forced)
+            by = collections.defaultdict(list)
+            for i in range(len(recs)):
+                if i not in used and (intent[i], akeys[i]) not in {(intent[j], akeys[j]) for j in by[intent[i]]}:
+                    by[intent[i]].append(i)
+            cands = [g for g in by.values() if len(g) >= 2]
+            if cands:
+                g = rng.choice(cands)
+                g = g[:rng.choice([2, 3, 4, 4])]
+                a = g[0]
+                twin = {"lines": [[1, rng.choice([1, 2])], [4, 0], [1000 + a, 1]], "funcs": [[("id%d" % a).encode().hex(), 20 + a, True]],
+                        "branches": [[10, [True, False]]] if branch else []}
+                for i in g:
+                    recs[i] = (recs[i][0], json.loads(json.dumps(twin)))
+                    kinds[i] = "twin"
+                dist["cases_with_identical_records"] += 1
+                dist["identical_records_are_the_whole_file"] += all(intent[i] != intent[a] or i in g for i in range(len(recs)))
         info = os.path.join(root, "run", "in.info")
         with open(info, "w") as f:
             f.write(render_lcov(recs))
@@ -400,7 +443,11 @@ def cli_stream(chk, n):
             dist["with_path_mapping"] += 1
             dist["mapped_records_key_upper_record_lower"] += sum(1 for k, _ in recs if flip_first(k.replace("\\", "/")) in mapping and k[0].islower())
             dist["mapped_records_key_lower_record_upper"] += sum(1 for k, _ in recs if flip_first(k.replace("\\", "/")) in mapping and k[0].isupper())
-        dist["records_with_respelt_prefix"] += sum(1 for k, _ in recs if pd and not k.startswith(pd + "/") and k.startswith("/builds"))
+        dist["records_with_respelt_prefix"] += sum(1 for (k, _), m in zip(recs, marks) if m == "inside-prefix")
+        dist["records_under_a_locally_existing_prefix"] += sum(1 for (k, _), m in zip(recs, marks) if m in ("prefix", "inside-prefix") and pd_kind not in (None, "absent"))
+        dist["mapped_values_starting_with_prefix"] += sum(1 for v in (mapping or {}).values() if pd and v.startswith(pd + "/"))
+        if pd_kind:
+            dist["prefix_" + pd_kind] += 1
         outs = {}
         todo = [("lcov", None), ("files", None), ("covdir", None)] + ([("lcov", True), ("lcov", False)] if with_filter else [])
         for t, flt in todo:
@@ -480,28 +527,48 @@ def lineless_variants(rng, case):
     return case
 
 
+def twin_variants(rng, case, dist_holder):
+    """2-3 keys that spell the same underlying file get the very same record (merging equal records must still sum them)"""
+    by = collections.defaultdict(list)
+    for i, m in enumerate(case["meta"]["keys"]):
+        by[m[1]].append(i)
+    cands = [g for g in by.values() if len(g) >= 2]
+    if cands and rng.random() < 0.45:
+        g = rng.choice(cands)[:rng.choice([2, 2, 3])]
+        twin = {"lines": [[1, rng.choice([1, 2])], [4, 0]], "branches": [[7, [True, False]]], "funcs": [["id".encode().hex(), 9, True]]}
+        for i in g:
+            case["keys"][i][1] = json.loads(json.dumps(twin))
+        dist_holder["cases_with_identical_records"] += 1
+    return case
+
+
 def run(chk):
     chk.proofs()
     quick = chk.tier == "quick"
     d2 = cli_stream(chk, 60 if quick else 600)
     cases = []
+    twins = collections.Counter()
     for i in range(120 if quick else 1500):
         c = pathgen.make_case(chk.rng, i)
         c["variants"] = [c["variants"][0], c["variants"][chk.rng.choice([1, 2, 3, 4, 5, 6])], c["variants"][chk.rng.choice([3, 4])]]
-        cases.append(lineless_variants(chk.rng, c))
+        cases.append(twin_variants(chk.rng, lineless_variants(chk.rng, c), twins))
     d1 = engine_stream(chk, cases)
+    d1.update(twins)
     chk.extra["distribution"] = {"engine": d1, "cli": d2}
     chk.cov["rule"] = ("(1) CLI: generated tracefiles in which 1-3 underlying files appear in up to 10 spellings each ('./', '//', '/./', backslash, absolute, "
                        "absolute with './', absolute through '..', prefixed, prefixed with '//' after the prefix, prefixed with '//' or '/./' INSIDE the prefix part, and "
                        "--path-mapping keys spelt exactly or with the other case of their first letter (key upper / record lower and the converse, also with backslashes)), "
-                       "files present on disk or not, with and without -s / -p / --path-mapping / --branch; "
+                       "files present on disk or not, with and without -s / -p / --path-mapping / --branch; -p is a build-machine prefix absent from this machine or one that "
+                       "exists here (through a symlink, relative to the working directory, with './' or '..'); mapping values are the repository path or the "
+                       "build-machine path <prefix>/<path> (mapped first, then the prefix is removed); in half of the cases 2-3 spellings of one file that stay "
+                       "distinct map keys carry the very same record (the aggregate then has k times the counts); "
                        "every input is identifiable by a key line, a function id<i> or a branch line, about a quarter of the inputs carry no DA line at all "
                        "(function-only, branch-only); reports -t lcov, files, covdir and, in about half of the cases, --filter covered and --filter uncovered "
                        "(with two spellings of one file forced to differ in status whenever two of them stay distinct map keys): every path is listed once, its "
                        "record is the C01 aggregate (lines, branches, functions) of exactly the inputs whose spelling denotes it, --filter lists exactly the files "
                        "whose AGGREGATE has the status, each with the full aggregate, and the covdir totals of every directory and of the whole report equal the "
                        "sum over the files listed. (2) engine rewrite: merge_same_paths(rewrite_paths(.., None, ..), filter) on C11's generated cases with a function "
-                       "id<i> per key and a quarter of the keys line-less: no duplicate path (as string and as component sequence), every record = the driver's "
+                       "id<i> per key, a quarter of the keys line-less, and identical records under 2-3 spellings of one file in part of the cases: no duplicate path (as string and as component sequence), every record = the driver's "
                        "own aggregate of the retained records with that path with --filter decided on the aggregate, and agreement with the model report_paths. "
                        "non-trivial = a CLI case with at least two spellings, or an engine run in which at least one record was merged from several keys; distinct by content")
     chk.cov["trusted_base"] = ["Coq kernel; vm_compute", "grcov's lcov parser and lcov/covdir/files writers (C04, C03) on the CLI stream",
